@@ -475,6 +475,18 @@ theorem generated_stage_order_is_documented :
        "Shortener", "NEndTrimmer", "LengthTagModifier", "SuffixRemover", "ZeroCapper", "Renamer"] := by
   decide
 
+/-- **The real assembly applies the `-u`/`-U` cuts in the order given** (observed on the working tree by letting every assembled cutter act
+    on a probe read; zero values dropped), single-end and on either read of a pair … -/
+theorem generated_cuts_in_given_order :
+    ∀ row ∈ Generated.cutOrder, row.2.1 = row.1.filter (· != 0) ∧ row.2.2.1 = row.1.filter (· != 0) ∧ row.2.2.2 = row.1.filter (· != 0) := by
+  decide
+
+/-- … which is what the assembly model does with the same values (`cuts_in_given_order` for every option record) -/
+theorem generated_cuts_are_model :
+    ∀ row ∈ Generated.cutOrder,
+      (match makeModsSingle { cut := row.1 } [] with | .ok l => some (l.filterMap cutOf) | .error _ => none) = some row.2.1 := by
+  decide
+
 /-- … and it is what the assembly model produces for the corresponding option record -/
 theorem generated_stage_order_is_model :
     namesOfMods (makeModsSingle exOpts [exAdapter [65, 67, 71, 84] "A"]) = Generated.stageOrderSingle ∧
